@@ -37,7 +37,12 @@ func (r *Rng) Intn(n int) int {
 	}
 	return int(r.Next() % uint64(n))
 }
-func (r *Rng) Bool() bool        { return r.Next()&1 == 1 }
+func (r *Rng) Bool() bool { return r.Next()&1 == 1 }
+func (r *Rng) Shuffle(n int, swap func(i, j int)) {
+	for i := n - 1; i > 0; i-- {
+		swap(i, r.Intn(i+1))
+	}
+}
 func (r *Rng) Chance(p int) bool { return r.Intn(100) < p }
 
 func Seed() uint64 {
@@ -261,6 +266,8 @@ type NodeSt struct {
 	CfgF               string
 	Recv               string
 	ET, LD             int64
+	PW                 bool
+	RS                 uint64
 }
 
 func b01(b bool) string {
@@ -312,9 +319,9 @@ func (n NodeSt) String() string {
 	if le < 0 {
 		le = 0
 	}
-	return fmt.Sprintf("id=%d role=%s term=%d vote=%d leader=%d log=%s ci=%d la=%d si=%d st=%d cfg=%s com=%s lc=%d le=%d sv=%s fol=%s prep=%s reads=%s cfgf=%s recv=%s et=%d ld=%d",
+	return fmt.Sprintf("id=%d role=%s term=%d vote=%d leader=%d log=%s ci=%d la=%d si=%d st=%d cfg=%s com=%s lc=%d le=%d sv=%s fol=%s prep=%s reads=%s cfgf=%s recv=%s et=%d ld=%d rs=%d pw=%s",
 		n.ID, n.Role, n.Term, n.Vote, n.Leader, n.Log.String(), n.CI, n.LA, n.SI, n.ST, cfg.String(), n.Com.String(),
-		lc, le, b01(n.SV), fols, prep, reads, cfgf, recv, n.ET, n.LD)
+		lc, le, b01(n.SV), fols, prep, reads, cfgf, recv, n.ET, n.LD, n.RS, b01(n.PW))
 }
 
 func RoleOf(s raft.State) string {
